@@ -31,6 +31,7 @@ type unit struct {
 	ret     string // Lean type of the value
 	partial bool   // slice / index / error returns occur: the value is wrapped in GoSem.Res
 	fields  map[string]string
+	argIdx  []int // kind "callargs": the argument positions of the call that are translated (as a tuple)
 	doc     string
 }
 
@@ -51,6 +52,12 @@ var units = []unit{
 	{name: "incdecNewValue", file: "redis/sugar_commander.go", kind: "closure", fn: "incdecExecutor", from: "newVal := currVal + val", count: 2, tail: "newVal",
 		binders: "(currVal val : Int)", ret: "Int", partial: true,
 		doc: "redis/sugar_commander.go, closure incdecExecutor: `newVal := currVal + val` and the overflow test behind it"},
+	{name: "bulkReadLength", file: "redis/proto/parser.go", kind: "method", fn: "Parser.nextLengthBytes", count: 2, tail: "n",
+		binders: "(num : Int)", ret: "Int", partial: true,
+		doc: "redis/proto/parser.go: (*Parser).nextLengthBytes, the limit test on the declared length and `n := num + 2`"},
+	{name: "zrevrangeWindow", file: "redis/core_commander.go", kind: "callargs", fn: "ZREVRANGE", from: "ZRange", argIdx: []int{2, 3},
+		binders: "(start stop : Int)", ret: "Int × Int",
+		doc: "redis/core_commander.go, executor ZREVRANGE: the start and stop arguments of its call of the handler's ZRange"},
 	{name: "decrbyGuard", file: "redis/sugar_commander.go", kind: "executor", fn: "DECRBY", from: "if inc == math.MinInt { return nil, errors.New(\"decrement would overflow\") }", count: 1, tail: "-inc",
 		binders: "(inc : Int)", ret: "Int", partial: true,
 		doc: "redis/sugar_commander.go, executor DECRBY: the guard on the decrement and the negation handed to incdecExecutor"},
@@ -74,6 +81,7 @@ type tr struct {
 	binds  []string // pending partial operations of the expression being translated: "tN ← <option term>"
 	n      int
 	failed string
+	consts map[string]int64 // package-level integer constants of the unit's package
 }
 
 func (t *tr) fail(format string, a ...any) string {
@@ -105,6 +113,9 @@ func (t *tr) expr(e ast.Expr) string {
 		switch x.Name {
 		case "true", "false":
 			return x.Name
+		}
+		if v, ok := t.consts[x.Name]; ok {
+			return fmt.Sprintf("(%d : Int)", v)
 		}
 		return leanName(x.Name)
 	case *ast.BasicLit:
@@ -238,6 +249,17 @@ func (t *tr) value(v string) string {
 func (t *tr) ret(ind string, r *ast.ReturnStmt) string {
 	rs := r.Results
 	isNil := func(e ast.Expr) bool { id, ok := e.(*ast.Ident); return ok && id.Name == "nil" }
+	if len(rs) == 2 && isNil(rs[0]) {
+		// (nil, error): the text of the error is its first argument as written
+		if c, ok := rs[1].(*ast.CallExpr); ok && len(c.Args) >= 1 && (t.src(c.Fun) == "errors.New" || t.src(c.Fun) == "fmt.Errorf") {
+			if l, ok := c.Args[0].(*ast.BasicLit); ok && l.Kind == token.STRING {
+				return "GoSem.Res.err " + l.Value
+			}
+			if id, ok := c.Args[0].(*ast.Ident); ok {
+				return "GoSem.Res.err " + strconv.Quote(id.Name)
+			}
+		}
+	}
 	if (t.u.kind == "executor" || t.u.kind == "closure") && len(rs) == 2 {
 		// (*Message, error)
 		if isNil(rs[1]) {
@@ -356,6 +378,68 @@ func (t *tr) stmts(ind string, ss []ast.Stmt, tail string) string {
 	return "()"
 }
 
+// packageIntConsts evaluates the package-level constants of a directory that are products / sums of integer literals.
+func packageIntConsts(dir string) map[string]int64 {
+	out := map[string]int64{}
+	matches, _ := filepath.Glob(filepath.Join(dir, "*.go"))
+	var eval func(e ast.Expr) (int64, bool)
+	eval = func(e ast.Expr) (int64, bool) {
+		switch x := e.(type) {
+		case *ast.ParenExpr:
+			return eval(x.X)
+		case *ast.BasicLit:
+			if x.Kind == token.INT {
+				v, err := strconv.ParseInt(x.Value, 0, 64)
+				return v, err == nil
+			}
+		case *ast.Ident:
+			v, ok := out[x.Name]
+			return v, ok
+		case *ast.BinaryExpr:
+			a, ok1 := eval(x.X)
+			b, ok2 := eval(x.Y)
+			if ok1 && ok2 {
+				switch x.Op {
+				case token.MUL:
+					return a * b, true
+				case token.ADD:
+					return a + b, true
+				case token.SUB:
+					return a - b, true
+				case token.SHL:
+					return a << uint(b), true
+				}
+			}
+		}
+		return 0, false
+	}
+	for _, fn := range matches {
+		if strings.HasSuffix(fn, "_test.go") {
+			continue
+		}
+		f, err := parser.ParseFile(token.NewFileSet(), fn, nil, 0)
+		if err != nil {
+			continue
+		}
+		for _, d := range f.Decls {
+			gd, ok := d.(*ast.GenDecl)
+			if !ok || gd.Tok != token.CONST {
+				continue
+			}
+			for _, sp := range gd.Specs {
+				vs, ok := sp.(*ast.ValueSpec)
+				if !ok || len(vs.Names) != 1 || len(vs.Values) != 1 {
+					continue
+				}
+				if v, ok := eval(vs.Values[0]); ok {
+					out[vs.Names[0].Name] = v
+				}
+			}
+		}
+	}
+	return out
+}
+
 // findBody locates the statement list the unit names
 func findBody(fset *token.FileSet, f *ast.File, u *unit) (recv string, body []ast.Stmt, why string) {
 	switch u.kind {
@@ -374,7 +458,7 @@ func findBody(fset *token.FileSet, f *ast.File, u *unit) (recv string, body []as
 				return id, fd.Body.List, ""
 			}
 		}
-	case "executor":
+	case "executor", "callargs":
 		var found *ast.FuncLit
 		ast.Inspect(f, func(n ast.Node) bool {
 			c, ok := n.(*ast.CallExpr)
@@ -434,8 +518,50 @@ func translateUnits(repo string) (string, int) {
 		} else {
 			recv, body, why = findBody(fset, f, u)
 		}
-		t := &tr{fset: fset, u: u, recv: recv}
-		if why == "" && u.from != "" {
+		t := &tr{fset: fset, u: u, recv: recv, consts: packageIntConsts(filepath.Join(repo, filepath.Dir(u.file)))}
+		if u.kind == "callargs" && why == "" {
+			// the arguments of the first call of a method named u.from inside the executor
+			var call *ast.CallExpr
+			for _, st := range body {
+				ast.Inspect(st, func(n ast.Node) bool {
+					if c, ok := n.(*ast.CallExpr); ok && call == nil {
+						if sel, ok := c.Fun.(*ast.SelectorExpr); ok && sel.Sel.Name == u.from {
+							call = c
+						}
+					}
+					return true
+				})
+			}
+			text := ""
+			if call == nil {
+				why = "no call of " + u.from + " in the executor"
+			} else {
+				var vs []string
+				for _, k := range u.argIdx {
+					if k >= len(call.Args) {
+						why = "the call has fewer arguments than expected"
+						break
+					}
+					vs = append(vs, t.expr(call.Args[k]))
+				}
+				if len(t.binds) != 0 {
+					why = "a slice or index expression in a call argument"
+				}
+				text = "(" + strings.Join(vs, ", ") + ")"
+				if why == "" {
+					why = t.failed
+				}
+			}
+			sb.WriteString("/-- " + u.doc + " -/\n")
+			if why != "" {
+				sb.WriteString("def " + u.name + " : Unit := ()  -- UNTRANSLATABLE: " + strings.ReplaceAll(why, "\n", " ") + "\n\n")
+				continue
+			}
+			okCount++
+			sb.WriteString("def " + u.name + " " + u.binders + " : " + u.ret + " :=\n  " + text + "\n\n")
+			continue
+		}
+		if why == "" && u.from != "" && u.kind != "callargs" {
 			at := -1
 			for k, s := range body {
 				if t.src(s) == u.from {
